@@ -23,7 +23,7 @@ import (
 func TestVerifC07Pmm(t *testing.T) {
 	run := vlib.Start(t, "C07")
 	defer run.Finish()
-	run.SetRule("case = real pmm.Init on a generated memory map (1-3 available regions) whose bookkeeping size (pool descriptors + bitmaps) is steered to k*4096-8, k*4096 or k*4096+8 bytes for k = 1..3, or left random; the reservation size and every (page, frame) pair reaching the map seam are compared with ceil(size/4096) consecutive pages; non-trivial = bookkeeping size within 8 bytes of a page multiple; distinct = fingerprint of the memory map")
+	run.SetRule("case = real pmm.Init on a generated memory map (1-3 available regions) whose bookkeeping size (pool descriptors + bitmaps) is steered to k*4096-8, k*4096 or k*4096+8 bytes for k = 1..3, or left random; the reservation size and every (page, frame) pair reaching the map seam are compared with ceil(size/4096) consecutive pages; in a quarter of the cases the bootstrap is run again with the mapping of one page refused and then retried on the same allocator: every page the second attempt maps must lie, in order, inside the region it reserved (or kept); non-trivial = bookkeeping size within 8 bytes of a page multiple; distinct = fingerprint of the memory map")
 	e := pmmvNewEnv()
 	defer e.close()
 	e.watchdog(run)
@@ -131,5 +131,39 @@ func TestVerifC07Pmm(t *testing.T) {
 		if run.WantSample() && d == 0 {
 			run.Sample(map[string]interface{}{"config": cfg.desc(), "bookkeeping_bytes": needed, "reserved_bytes": size, "pages_mapped": len(e.maps)})
 		}
+
+		// The same bootstrap once more, this time with the mapping of one of its pages refused and then tried
+		// again on the same allocator (a caller that retries instead of giving up). Whatever the second attempt
+		// reserves or keeps, every page it maps has to lie inside a region that was reserved, and in order.
+		if !r.Chance(1, 4) {
+			return
+		}
+		failAt := r.Intn(int(wantPages))
+		e.install(cfg)
+		e.failMapAt = failAt
+		err, pv, _ = e.init(cfg)
+		if pv != nil || err == nil || e.book == nil {
+			return // the first attempt is judged above and by C03
+		}
+		firstBase, firstSize := uint64(e.book.Base), e.reserveSizes[0]
+		nMaps, nRes := len(e.maps), len(e.reserveSizes)
+		e.failMapAt = -1
+		e.allowSecond = true
+		_, pv2, stack2 := e.init(cfg)
+		run.Count("bootstrap_retries_after_a_refused_mapping", 1)
+		base, size := firstBase, firstSize
+		if len(e.reserveSizes) > nRes && e.book2 != nil {
+			base, size = uint64(e.book2.Base), e.reserveSizes[len(e.reserveSizes)-1]
+		}
+		for i, mc := range e.maps[nMaps:] {
+			if mc.Page != base/4096+uint64(i) || uint64(i) >= (size+4095)/4096 {
+				c.Violation("bootstrap-retry-page-outside-reservation", map[string]interface{}{
+					"what": fmt.Sprintf("second attempt, map call %d maps page %#x; the region in use is [%#x, %#x) (%d bytes reserved)", i, mc.Page, base, base+size, size),
+					"first_attempt": fmt.Sprintf("reserved %d bytes at %#x, mapping refused at page %d", firstSize, firstBase, failAt),
+					"reservations_made_by_second_attempt": len(e.reserveSizes) - nRes, "panic_in_second_attempt": fmt.Sprint(pv2), "stack": stack2})
+				return
+			}
+		}
+		run.Count("bootstrap_retry_mappings_checked", int64(len(e.maps)-nMaps))
 	})
 }
